@@ -273,6 +273,16 @@ func (v *Verifier) newCtx(fn *ssa.Function, con *Contract) *FuncCtx {
 		assumptions: map[string]bool{}, trustedUsed: map[string]bool{}, unmodelled: map[string]bool{}, oblCount: map[string]int{},
 		pureDecl: map[string]bool{}, constGlobals: map[string]Term{}, uncontracted: map[string]bool{}, calleeContracts: map[string]bool{}, pureSig: map[string]string{}}
 	c.guard = tTrue
+	if con != nil && math {
+		for _, n := range con.Notes {
+			if n == "theory strings" {
+				c.sc.nativeStr = true
+				for _, f := range nativeStrFuns {
+					c.sc.funSeen[f] = true
+				}
+			}
+		}
+	}
 	c.registerKey("epoch", SInt, false)
 	if con != nil {
 		c.props = con.Props
@@ -346,6 +356,15 @@ func (v *Verifier) verifyFunc(fn *ssa.Function, con *Contract) (res *FuncResult)
 		}
 		c.sc.assume(t)
 		reqs = append(reqs, t)
+	}
+	for _, cl := range con.Axioms {
+		t, err := ec.evalBool(cl.Expr)
+		if err != nil {
+			c.stale = append(c.stale, fmt.Sprintf("%s:%d: %v", cl.File, cl.Line, err))
+			continue
+		}
+		c.sc.assume(t)
+		c.trustedUsed["definitional axiom in "+c.funcName+": "+oneLine(cl.Text)] = true
 	}
 	// vacuity: the preconditions are satisfiable
 	c.sc.oblige(&Obligation{Name: c.funcName + "/cover/requires#1", Kind: "cover", Func: c.funcName, Props: c.props, Goal: tTrue, Cover: true, Detail: "preconditions and entry assumptions are satisfiable"})
@@ -514,7 +533,16 @@ func (fr *Frame) checkEnsures() {
 		fr.oblige("ensures", clauseLabel(cl, i), implies(reach, t), token.NoPos, oneLine(cl.Text))
 	}
 	// frame: a pure / modifies-nothing function leaves every pre-existing heap object unchanged
-	if fr.isTop && (fr.con.Pure || modifiesNothing(fr.con)) {
+	exceptNames := modifiesPointees(fr.con)
+	if fr.isTop && (fr.con.Pure || modifiesNothing(fr.con) || len(exceptNames) > 0) {
+		var except []Term
+		for _, n := range exceptNames {
+			if tv, ok := fr.params[n]; ok && tv.T.Sort == SRef {
+				except = append(except, tv.T)
+			} else {
+				c.stale = append(c.stale, fmt.Sprintf("%s:%d: modifies *%s: not a pointer parameter", fr.con.File, fr.con.Line, n))
+			}
+		}
 		var keys []string
 		for k, ki := range c.keys {
 			if !ki.local && k != "epoch" {
@@ -531,11 +559,19 @@ func (fr *Frame) checkEnsures() {
 			if strings.HasPrefix(string(entry.Sort), "(Array Ref ") {
 				inner := Sort(strings.TrimSuffix(strings.TrimPrefix(string(entry.Sort), "(Array Ref "), ")"))
 				c.sc.declFun("alloc_id", []Sort{SRef}, SInt)
-				goal = Term{fmt.Sprintf("(forall ((r Ref)) (=> (<= (alloc_id r) 0) (= %s %s)))", sel(final, Term{"r", SRef}, inner).S, sel(entry, Term{"r", SRef}, inner).S), SBool}
+				guard := "(<= (alloc_id r) 0)"
+				for _, e := range except {
+					guard = fmt.Sprintf("(and %s (not (= r %s)))", guard, e.S)
+				}
+				goal = Term{fmt.Sprintf("(forall ((r Ref)) (=> %s (= %s %s)))", guard, sel(final, Term{"r", SRef}, inner).S, sel(entry, Term{"r", SRef}, inner).S), SBool}
 			} else {
 				goal = eq(final, entry)
 			}
-			fr.oblige("frame", sanitize(k), implies(reach, goal), token.NoPos, "modifies nothing: "+k+" unchanged for every object that existed at entry")
+			what := "modifies nothing"
+			if len(exceptNames) > 0 {
+				what = "modifies only *" + strings.Join(exceptNames, ", *")
+			}
+			fr.oblige("frame", sanitize(k), implies(reach, goal), token.NoPos, what+": "+k+" unchanged for every other object that existed at entry")
 		}
 	}
 	c.guard = saveGuard
